@@ -12,12 +12,20 @@ def sh(cmd, **kw):
     return subprocess.run(cmd, shell=True, capture_output=True, text=True, **kw)
 
 
+CHECK_ONLY = "--check-only" in sys.argv
+if CHECK_ONLY:
+    sys.argv.remove("--check-only")
+
+
 def main(ids):
     for sid in ids:
         d = f"{V}/seeded/{sid}"
         meta = json.load(open(f"{d}/meta.json"))
         prop = meta.get("property") or sid.split("-")[0]
         wt = f"/tmp/confirm_{sid}"
+        if CHECK_ONLY and meta.get("confirmed", {}).get("ok"):
+            check_only(sid, d, meta, prop)
+            continue
         sh(f"git -C /repo worktree remove --force {wt}")
         sh(f"git -C /repo worktree add --detach {wt} HEAD")
         env = dict(os.environ, PYTHONPATH=wt)
@@ -33,6 +41,13 @@ def main(ids):
         new = sorted(f for f in fails - BASE if not any(x in f for x in FLAKY))
         summary = (t.strip().splitlines() or [""])[-1]
         sh(f"git -C /repo worktree remove --force {wt}")
+        meta["confirmed"] = {"demo_unchanged_exit": r0, "demo_changed_exit": r1, "suite": summary, "new_test_failures": new,
+                             "ok": r0 == 0 and r1 != 0 and not new}
+        check_only(sid, d, meta, prop)
+
+
+def check_only(sid, d, meta, prop):
+    if True:
         # run the check against /repo with the patch applied
         assert sh("git -C /repo status --porcelain").stdout.strip() == "", "/repo not clean"
         evf = f"{V}/evidence/{prop}.json"
@@ -53,12 +68,10 @@ def main(ids):
                     obl.append(json.load(open(m.group(1))).get("obligation"))
                 except Exception:
                     pass
-        meta.update({"confirmed": {"demo_unchanged_exit": r0, "demo_changed_exit": r1, "suite": summary, "new_test_failures": new,
-                                   "ok": r0 == 0 and r1 != 0 and not new},
-                     "check": {"cmd": f"./check {prop} --tier quick", "exit": c.returncode, "violations": len(viol), "obligations": sorted(set(o for o in obl if o))[:8],
+        meta.update({"check": {"cmd": f"./check {prop} --tier quick", "exit": c.returncode, "violations": len(viol), "obligations": sorted(set(o for o in obl if o))[:8],
                                "summary": (c.stdout.strip().splitlines() or [""])[-1]}})
         json.dump(meta, open(f"{d}/meta.json", "w"), indent=1)
-        print(f"{sid}: confirmed={meta['confirmed']['ok']} (demo {r0}->{r1}, new test failures {len(new)}) check exit={c.returncode} violations={len(viol)} {sorted(set(o for o in obl if o))[:3]}")
+        print(f"{sid}: confirmed={meta['confirmed']['ok']} check exit={c.returncode} violations={len(viol)} {sorted(set(o for o in obl if o))[:3]}")
 
 
 main(sys.argv[1:] or sorted(os.listdir(f"{V}/seeded")))
